@@ -1073,7 +1073,7 @@ class Compiler:
       # a module-level lock: one model per lock object, named after the global
       fr = self.frames[-1]
       modname = (fr.globs or {}).get("__name__", "?")
-      model = M.MRLock("lock.%s.%s" % (modname, name))
+      model = M.MRLock("lock.%s.%s" % (modname, name), reentrant=not isinstance(py, type(threading.Lock())))
       self.sc.add(model)
       self.sc.by_identity.append((py, model))
       self.sc.global_locks.append((modname, name, model.name))
@@ -1190,7 +1190,7 @@ class Compiler:
     v = vars(proto)[attr]
     name = "%s.%s" % (obj.name, attr)
     if isinstance(v, (type(threading.RLock()), type(threading.Lock()))):
-      m = self.sc.add(M.MRLock(name))
+      m = self.sc.add(M.MRLock(name, reentrant=not isinstance(v, type(threading.Lock()))))
     elif isinstance(v, threading.Event):
       m = self.sc.add(M.MEvent(name, 1 if v.is_set() else 0))
     elif v is None or isinstance(v, bool) or (isinstance(v, int) and 0 <= v < 16):
